@@ -1,7 +1,7 @@
 """C05 - every command-line item is used exactly once or the run fails."""
 from vlib import *
 import defs as D, cmdline_sig
-from cmdline_check import run_cmdline_property, merge_cov
+from cmdline_check import run_protocol_only, run_cmdline_property, merge_cov
 import linegen, suite_trace
 
 
@@ -35,6 +35,11 @@ def run(v):
                                 driver={"defs": gbig, "n": 10000 if v.tier == "quick" else 200000,
                                         "gen": lambda rnd, d: [("line", linegen.group_line(rnd, d, 0.8))]})
     cov = merge_cov(cov, gcov, "groupline")
+    # generic trees beyond the acceptors (any/anywhere, pure, nested groups, adjacent commands with groups): random
+    # lines judged by the ledger protocol alone - every item used exactly once or the run fails
+    from checks.c04 import wild_defs
+    cov.update(run_protocol_only(v, [d for d in wild_defs(SEED + 59, 60 if q else 400)] + D.nested_adj_family(SEED + 60, 8),
+                                 8000 if q else 150000, "C05w"))
     # the repository's own test-suite traced with the hooks on (shapes the generators do not produce)
     cov.update(suite_trace.run_suite_trace(v))
     cov["rule"] = ("all lines up to maxlen: every accepted line together with every single insertion/duplication of an unknown "
